@@ -90,6 +90,8 @@ class C10(Check):
             if r < 0.8 or stateful or 'dyn' in cfg:
                 return ['parse', text, start]
             return ['lex', text, rng.choice([None, k]), rng.random() < 0.3, rng.random() < 0.3]
+        if e.name == 'rec' and r < 0.3:
+            return ['reconstruct', text, start]          # the TreeMatcher / Reconstructor caches, also under threads
         if r < 0.37:
             return ['parse', text, start]
         if r < 0.40 and e.input_kind == 'str' and not stateful:
